@@ -11,7 +11,7 @@ PROP = dict(
                     "combination of Default/Fail/Terminate or an error and leaving, zeroing or changing ev->id; every 8th case drives "
                     "mpt_command_reserve on a separate table (mixed widths; width-1 tables run past id 127 and to exhaustion).  After every "
                     "operation mpt_command_get is compared with the model for the whole domain and the end-of-life count of every registration "
-                    "is checked.  A C++ leg drives mpt::dispatch (set_handler, handler, set_default, set_error, destructor).  "
+                    "is checked.  A C++ leg drives mpt::dispatch (set_handler, handler, set_default, set_error, reserve, resize (shrink ends the registrations cut off, grow creates slots through the command traits), insert, destructor).  "
                     "Exploration, not proof."),
         level_note=("trusts the id->registration model in harness/c11_dispatch.c / c11_cxx.cpp, gcc ASan/UBSan/LSan; outcomes of the library's own "
                     "'unknown event' fallback, of a default id without registration and the default id after mpt_dispatch_hash are adopted, not asserted"),
@@ -39,6 +39,9 @@ PROP = dict(
                            "dispatch::set_error": 20000, "dispatch::~dispatch": 20000, "monitor:set-default-registered": 10000,
                            "emit:delivered-registered": 50000, "emit:delivered-default": 5000, "monitor:lifetime-accounted": 100000,
                            "dispatch::reserve": 20000, "reserve:first-table-operation": 3000,
+                           "dispatch::resize": 20000, "dispatch::insert": 8000, "resize:shrink-ended-registrations": 5000,
+                           "resize:grow": 5000, "resize:grow-over-ended-registrations": 1500, "insert:accepted": 5000,
+                           "monitor:traits-slot-compared": 15000,
                            "fini:reserve-created-table-with-live-handlers": 3000})],
         rule=("case = one PRNG history of 10..70 (thorough 120) dispatcher operations ending in mpt_dispatch_fini, or (every 8th case) one "
               "history of 10..300 reserve/release operations on a reservation table ending in mpt_command_clear; C++ leg: 8..50 operations "
